@@ -6,6 +6,7 @@ package store
 
 //@ func (*Alerts).Get
 //@   props C03 C05 C13
+//@   ensures [monitor-lock-released] count("Mutex).Lock") == count("Mutex).Unlock") && count("Mutex).Lock") == 1
 //@   requires a != nil && ErrNotFound != nil
 //@   ensures [found] result1 == nil ==> fp in a.alerts && result0 == a.alerts[fp]
 //@   ensures [missing] result1 != nil ==> !(fp in a.alerts) && result0 == nil && result1 == ErrNotFound
@@ -17,6 +18,7 @@ package store
 //@ spec deadEmpty(a *Alerts) bool = a.destroyed ==> len(a.alerts) == 0
 //@ func (*Alerts).DeleteIfNotModified
 //@   props C05 C06
+//@   ensures [monitor-lock-released] count("Mutex).Lock") == count("Mutex).Unlock") && count("Mutex).Lock") == 1
 //@   requires a != nil && a.alerts != nil
 //@   requires forall i int :: 0 <= i && i < len(alerts) ==> alerts[i] != nil
 //@   requires forall f model.Fingerprint :: f in a.alerts ==> a.alerts[f] != nil
@@ -41,6 +43,7 @@ package store
 // C13: only resolved alerts are ever collected; everything else stays, untouched.
 //@ func (*Alerts).gcAlerts
 //@   props C13 C03
+//@   ensures [monitor-lock-released] count("Mutex).Lock") == count("Mutex).Unlock") && count("Mutex).Lock") == 1
 //@   requires a != nil
 //@   requires forall f model.Fingerprint :: f in a.alerts ==> a.alerts[f] != nil
 //@   ensures [kept] forall f model.Fingerprint :: f in a.alerts ==> old(f in a.alerts) && a.alerts[f] == old(a.alerts[f])
@@ -90,6 +93,8 @@ package store
 
 //@ func (*Alerts).Set
 //@   props C03 C05 C13 C14 C18
+//@   ensures [monitor-lock-released] count("Mutex).Lock") == count("Mutex).Unlock") && count("Mutex).Lock") == 1
+//@   at call Alerts).set assert [monitor-lock-held] count("Mutex).Lock") == 1 && count("Mutex).Unlock") == 0
 //@   requires a != nil && alert != nil && a.alerts != nil && ErrDestroyed != nil && ErrLimited != nil && bucketOK(a, nameOf(alert))
 //@   ensures [destroyed] old(a.destroyed) ==> result == ErrDestroyed && dom(a.alerts) == old(dom(a.alerts)) && vals(a.alerts) == old(vals(a.alerts))
 //@   ensures [stored] result == nil ==> dom(a.alerts) == setadd(old(dom(a.alerts)), fpA(alert)) && vals(a.alerts) == upd(old(vals(a.alerts)), fpA(alert), alert)
@@ -112,6 +117,7 @@ package store
 // work is scheduled: a stored version with a more recent UpdatedAt is never replaced; otherwise as Set.
 //@ func (*Alerts).SetIfNotOlder
 //@   props C14 C05 C06
+//@   ensures [monitor-lock-released] count("Mutex).Lock") == count("Mutex).Unlock") && count("Mutex).Lock") == 1
 //@   requires a != nil && alert != nil && a.alerts != nil && ErrDestroyed != nil && ErrLimited != nil && bucketOK(a, nameOf(alert))
 //@   requires forall f model.Fingerprint :: f in a.alerts ==> a.alerts[f] != nil
 //@   ensures [never-older] old(fpA(alert) in a.alerts) && old(a.alerts[fpA(alert)].UpdatedAt) > alert.UpdatedAt
@@ -143,6 +149,7 @@ package store
 
 //@ func (*Alerts).List
 //@   props C05 C06 C13
+//@   ensures [monitor-lock-released] count("Mutex).Lock") == count("Mutex).Unlock") && count("Mutex).Lock") == 1
 //@   requires a != nil
 //@   ensures [complete] forall f model.Fingerprint :: f in a.alerts ==> (exists i int :: 0 <= i && i < len(result) && result[i] == a.alerts[f])
 //@   ensures [sound] forall i int :: 0 <= i && i < len(result) ==> (exists f model.Fingerprint :: f in a.alerts && result[i] == a.alerts[f])
@@ -155,16 +162,19 @@ package store
 
 //@ func (*Alerts).Empty
 //@   props C05 C06
+//@   ensures [monitor-lock-released] count("Mutex).Lock") == count("Mutex).Unlock") && count("Mutex).Lock") == 1
 //@   requires a != nil
 //@   ensures result == (len(a.alerts) == 0)
 //@   assigns nothing
 //@ func (*Alerts).Destroyed
 //@   props C05 C06
+//@   ensures [monitor-lock-released] count("Mutex).Lock") == count("Mutex).Unlock") && count("Mutex).Lock") == 1
 //@   requires a != nil
 //@   ensures result == a.destroyed
 //@   assigns nothing
 //@ func (*Alerts).Len
 //@   props C05 C06
+//@   ensures [monitor-lock-released] count("Mutex).Lock") == count("Mutex).Unlock") && count("Mutex).Lock") == 1
 //@   requires a != nil
 //@   ensures result == len(a.alerts)
 //@   assigns nothing
